@@ -1074,3 +1074,4 @@ M('c14-read-from-self', 'C14', "        with source_container.get_objects_stream
 M('c02-dups-removed-when-primary-corrupt', 'C02', "            if computed_hash == reference_obj_hashkey:\n                # The object is in the repo", "            if computed_hash != reference_obj_hashkey:\n                # The object is in the repo", 'C02.R4')
 M('c02-unverified-duplicate-restored', 'C02', "                    if computed_hash == reference_obj_hashkey:\n                        # We found a duplicate", "                    if computed_hash:\n                        # We found a duplicate", 'C02.R4')
 M('c15-cli-swallows-failure', 'C15', "            click.echo(f'Error: {e}')\n            sys.exit(1)", "            click.echo(f'Error: {e}')", 'C15.R4', 'disk_objectstore/cli.py')
+M('c14-missing-source-keys-not-skipped', 'C14', "        with source_container.get_objects_stream_and_meta(hashkeys) as triplets:", "        with source_container.get_objects_stream_and_meta(hashkeys, skip_if_missing=False) as triplets:", 'C14.R5')
